@@ -35,9 +35,13 @@ def correspond(ctx):
         dims = pr.dims
         hasQS = bool(dims['q'] or dims['s'])
         c, G, h, A, b, P = PR.to_cvx(cvxopt, pr)
+        illcond = False
         if nocone:
-            # the problem without inequalities: P must be positive definite on null(A): use P + I
-            for j in range(pr.n): pr.P[j][j] += 1.0
+            # the problem without inequalities: P must be positive definite on null(A): use P + I - or, half of the time, P + eps*I with a
+            # tiny eps: the KKT system is then solved inaccurately by some KKT solvers, and the direct solve must not call that 'optimal'
+            illcond = rng.random() < 0.5
+            shift = rng.choice([1e-6, 1e-9, 1e-12, 1e-15]) if illcond else 1.0
+            for j in range(pr.n): pr.P[j][j] += shift
             pr = PR.Planted(**dict(pr.__dict__, G=[[] for _ in range(pr.n)], h=[], dims={'l': 0, 'q': [], 's': []}, N=0))
             c, G, h, A, b, P = PR.to_cvx(cvxopt, pr)
             dims = pr.dims; hasQS = False
@@ -103,15 +107,50 @@ def correspond(ctx):
             stats[r['status']] = stats.get(r['status'], 0) + 1
             if r['status'] != 'optimal': continue
             t = (o.get('feastol', 1e-7), o.get('abstol', 1e-7), o.get('reltol', 1e-6))
+            ftol = tol_eff(t[0]); fslack = 0.0
+            if illcond:
+                # the solver compares residuals evaluated in floating point; with a huge solution vector their rounding error
+                # (about u * (|A| + |P|) * |x|) is what the exact recomputation may exceed the tolerance by
+                big = max([1.0] + [abs(v) for v in mlist(r['x'])] + [abs(v) for v in mlist(r['y'])])
+                amax = max([1.0] + [abs(v) for col in pr.A for v in col] + [abs(v) for col in pr.P for v in col])
+                fslack = 4e-15 * (pr.n + pr.p + 2) * amax * big
+                ftol = ftol + Fraction(fslack)
             lines.append(certlib.prob_line(pr)); meta.append(None)
             lines.append('optimalqp x=%s s=%s y=%s z=%s tol=%s,%s,%s' % (vec(mlist(r['x'])), vec(mlist(r['s'])), vec(mlist(r['y'])), vec(mlist(r['z'])),
-                                                                         fr(tol_eff(t[0])), fr(tol_eff(t[1])), fr(tol_eff(t[2]))))
-            meta.append((tag, r, desc, t))
+                                                                         fr(ftol), fr(tol_eff(t[1])), fr(tol_eff(t[2]))))
+            meta.append((tag, r, desc, t, fslack))
+    # ---- directed family for the direct solve (no inequalities): P = B'B + eps*I with rank(B) = 0..n and eps down to 1e-17, 0..n equality
+    # constraints, every KKT solver name: a status 'optimal' must come with residuals within the tolerance (up to the rounding of their evaluation)
+    for i in range(40 if ctx.quick() else 800):
+        n_ = rng.randint(1, 4); p_ = rng.randint(0, n_); r_ = rng.randint(0, n_)
+        Bm = [[rng.uniform(-1, 1) for _ in range(n_)] for _ in range(r_)]
+        eps = rng.choice([0.0, 1e-8, 1e-12, 1e-15, 1e-17])
+        Pc = [[sum(Bm[t][a] * Bm[t][b_] for t in range(r_)) + (eps if a == b_ else 0.0) for a in range(n_)] for b_ in range(n_)]
+        qv = [rng.uniform(-1, 1) for _ in range(n_)]
+        Ac = [[rng.uniform(-1, 1) for _ in range(p_)] for _ in range(n_)]; bv = [rng.uniform(-1, 1) for _ in range(p_)]
+        prq = PR.Planted(kind='optimal', c=qv, G=[[] for _ in range(n_)], h=[], A=Ac, b=bv, dims={'l': 0, 'q': [], 's': []}, n=n_, p=p_, N=0, P=Pc, wit={})
+        c2, G2, h2, A2, b2, P2 = PR.to_cvx(cvxopt, prq)
+        for k in (None, 'ldl', 'ldl2', 'chol', 'chol2'):
+            o = {'show_progress': False}
+            stats['solves'] += 1
+            try: r = quiet(solvers.coneqp, P2, c2, None, None, None, A2, b2, options=o, **({'kktsolver': k} if k else {}))
+            except Exception: stats['exception'] = stats.get('exception', 0) + 1; continue
+            stats['direct:' + r['status']] = stats.get('direct:' + r['status'], 0) + 1
+            if r['status'] != 'optimal': continue
+            big = max([1.0] + [abs(v) for v in mlist(r['x'])] + [abs(v) for v in mlist(r['y'])])
+            amax = max([1.0] + [abs(v) for col in Ac for v in col] + [abs(v) for col in Pc for v in col])
+            fslack = 4e-15 * (n_ + p_ + 2) * amax * big
+            tag = 'coneqp direct kktsolver=%s' % k
+            desc = {'seed': ctx.seed, 'index': 'direct-%d' % i, 'presentation': tag, 'dims': prq.dims, 'P': Pc, 'q': qv, 'G': prq.G, 'h': [], 'A': Ac, 'b': bv, 'options': {}}
+            lines.append(certlib.prob_line(prq)); meta.append(None)
+            lines.append('optimalqp x=%s s=%s y=%s z=%s tol=%s,%s,%s' % (vec(mlist(r['x'])), vec(mlist(r['s'])), vec(mlist(r['y'])), vec(mlist(r['z'])),
+                                                                         fr(tol_eff(1e-7) + Fraction(fslack)), fr(tol_eff(1e-7)), fr(tol_eff(1e-6))))
+            meta.append((tag, r, desc, (1e-7, 1e-7, 1e-6), fslack))
     out = vlib.drive('Cert', lines) if lines else []
     judged = 0
     for l, o, m in zip(lines, out, meta):
         if m is None: continue
-        tag, r, desc, t = m
+        tag, r, desc, t, fslack = m
         d = parse_out(o); judged += 1
         ent = tag.split(' ')[0]
         pres = max(math.sqrt(d['ry2']) / max(1.0, math.sqrt(d['b2'])), math.sqrt(d['rz2']) / max(1.0, math.sqrt(d['h2'])))
@@ -122,11 +161,12 @@ def correspond(ctx):
                           "(feastol %g abstol %g reltol %g)" % (tag, d['sIn'], d['zIn'], pres, dres, float(d['gap']), t[0], t[1], t[2]), dict(desc, checker=o))
         pc, dc, gap = float(d['pcost']), float(d['dcost']), float(d['gap'])
         bad = []
-        if not close(r['primal objective'], pc, 1e-8, 1e-9): bad.append(('primal objective', r['primal objective'], pc))
-        if not close(r['dual objective'], dc, 1e-7, 1e-8): bad.append(('dual objective', r['dual objective'], dc))
+        orel = 1e-8 if fslack == 0.0 else 1e-5
+        if not close(r['primal objective'], pc, orel, 1e-9 + fslack): bad.append(('primal objective', r['primal objective'], pc))
+        if not close(r['dual objective'], dc, 10 * orel, 1e-8 + fslack): bad.append(('dual objective', r['dual objective'], dc))
         if not close(r['gap'], gap, 1e-5, 1e-10): bad.append(('gap', r['gap'], gap))
-        if not close(r['primal infeasibility'], pres, 1e-3, 1e-11): bad.append(('primal infeasibility', r['primal infeasibility'], pres))
-        if not close(r['dual infeasibility'], dres, 1e-3, 1e-11): bad.append(('dual infeasibility', r['dual infeasibility'], dres))
+        if not close(r['primal infeasibility'], pres, 1e-3, 1e-11 + fslack): bad.append(('primal infeasibility', r['primal infeasibility'], pres))
+        if not close(r['dual infeasibility'], dres, 1e-3, 1e-11 + fslack): bad.append(('dual infeasibility', r['dual infeasibility'], dres))
         if bad:
             ctx.violation('c03:fields:%s:%s' % (ent, bad[0][0]), '%s: reported %s = %r, recomputed from the returned vectors %r' % (tag, bad[0][0], bad[0][1], bad[0][2]), desc)
     ctx.cov.update({'evaluations': stats['solves'], 'distinct_nontrivial': judged,
